@@ -18,72 +18,136 @@ THEOREMS = [
     ("range_tiling",
      "forall (body : bytes) (ws : list N), Forall (fun w => (0 < w)%N) ws -> sumN ws = N.of_nat (length body) -> "
      "concat (map (fun r => reply_body (range_spec (Some r) body)) (tile_ranges 0%N ws)) = body"),
+    ("range_any_status",
+     "forall (checked : bool) (hdr : option bytes) (status : N) (body : bytes), (N.of_nat (length body) <= u64_max)%N -> "
+     "serve_range checked hdr status body = Ok (range_spec_st status (denoted hdr) body)"),
     ("range_never_panics",
      "forall (checked : bool) (hdr : option bytes) (body : bytes), (N.of_nat (length body) <= u64_max)%N -> "
      "serve_range checked hdr 200%N body <> Panic"),
     ("range_conn_correct",
-     "forall (checked caching : bool) (pg : page) (cache : option page) (reqs : list creq), page_fits pg -> cache_ok pg cache -> "
-     "serve_history checked caching pg cache reqs = Ok (history_spec pg reqs)"),
+     "forall (checked caching : bool) (status : N) (pg : page) (cache : option page) (reqs : list rreq), page_fits pg -> "
+     "cache_ok pg cache -> status <> 304%N -> "
+     "serve_history checked caching status pg cache reqs = Ok (history_spec caching status pg (is_stored cache) reqs)"),
     ("range_history_independent",
-     "forall (checked caching : bool) (pg : page) (pre : list creq) (q : creq), page_fits pg -> "
-     "reply_after checked caching pg pre q = Ok (reply_spec pg q)"),
+     "forall (checked caching : bool) (status : N) (pg : page) (pre : list rreq) (q : rreq), page_fits pg -> status <> 304%N -> "
+     "fresh q = false -> reply_after checked caching status pg pre q = Ok (reply_spec status pg false q)"),
+    ("range_after_history",
+     "forall (checked caching : bool) (status : N) (pg : page) (pre : list rreq) (q : rreq), page_fits pg -> status <> 304%N -> "
+     "reply_after checked caching status pg pre q = Ok (reply_spec status pg (stored_by caching pre) q)"),
     ("range_head_as_get",
-     "forall (checked caching : bool) (pg : page) (cache : option page) (ae : N) (hdr : option bytes), page_fits pg -> cache_ok pg cache -> "
-     "fst (conn_step checked caching pg cache {| q_method := HEAD; q_ae := ae; q_range := hdr |}) = "
-     "omap strip_body (fst (conn_step checked caching pg cache {| q_method := GET; q_ae := ae; q_range := hdr |}))"),
+     "forall (checked caching : bool) (status : N) (pg : page) (cache : option page) (ae : N) (hdrs : list bytes) (ims : N), "
+     "page_fits pg -> cache_ok pg cache -> status <> 304%N -> "
+     "fst (rstep checked caching status pg cache {| rq_method := HEAD; rq_ae := ae; rq_ranges := hdrs; rq_ims := ims |}) = "
+     "omap strip_body (fst (rstep checked caching status pg cache {| rq_method := GET; rq_ae := ae; rq_ranges := hdrs; rq_ims := ims |}))"),
     ("range_slice_of_unranged",
-     "forall (pg : page) (ae : N) (v : bytes) (a c : N), parse_range v = Some (a, c) -> (a <= c)%N -> "
+     "forall (pg : page) (ae : N) (v : bytes) (more : list bytes) (a c : N), parse_range v = Some (a, c) -> (a <= c)%N -> "
      "(a < N.of_nat (length (rp_body (choose pg ae))))%N -> exists full part, "
-     "reply_spec pg {| q_method := GET; q_ae := ae; q_range := None |} = WResp full /\\ "
-     "reply_spec pg {| q_method := GET; q_ae := ae; q_range := Some v |} = WResp part /\\ "
+     "reply_spec 200%N pg false {| rq_method := GET; rq_ae := ae; rq_ranges := []; rq_ims := 0%N |} = WResp full /\\ "
+     "reply_spec 200%N pg false {| rq_method := GET; rq_ae := ae; rq_ranges := more ++ [v]; rq_ims := 0%N |} = WResp part /\\ "
      "w_status full = 200%N /\\ w_status part = 206%N /\\ w_content_encoding part = w_content_encoding full /\\ "
      "w_body part = firstn (N.to_nat (N.min c (w_content_length full - 1) - a + 1)) (skipn (N.to_nat a) (w_body full)) /\\ "
      "w_content_length part = N.of_nat (length (w_body part))"),
+    ("range_conn_tiling",
+     "forall (checked caching : bool) (pg : page) (cache : option page) (ae : N) (ws : list N), page_fits pg -> cache_ok pg cache -> "
+     "Forall (fun w => (0 < w)%N) ws -> sumN ws = N.of_nat (length (rp_body (choose pg ae))) -> exists replies, "
+     "serve_history checked caching 200%N pg cache (map (get_range ae) (tile_ranges 0%N ws)) = Ok replies /\\ "
+     "concat (map wbody replies) = rp_body (choose pg ae)"),
+    ("range_of_unranged",
+     "forall (checked caching : bool) (status : N) (pg : page) (cache : option page) (q : rreq), page_fits pg -> cache_ok pg cache -> "
+     "status <> 304%N -> rq_method q <> HEAD -> fst (rstep checked caching status pg cache q) = "
+     "omap (ranged_of (rq_range q)) (fst (rstep checked caching status pg cache (unranged q)))"),
+    ("range_conditional",
+     "forall (checked caching : bool) (status : N) (pg : page) (q : rreq), page_fits pg -> status <> 304%N -> "
+     "get_or_head (rq_method q) = true -> fresh q = true -> rejected (rq_range q) = false -> "
+     "fst (rstep checked caching status pg (Some pg) q) = Ok not_modified /\\ "
+     "fst (rstep checked caching status pg (Some pg) (unranged q)) = Ok not_modified"),
+    ("range_conditional_063_refuted",
+     "exists pg q, page_fits pg /\\ get_or_head (rq_method q) = true /\\ fresh q = true /\\ rejected (rq_range q) = false /\\ "
+     "fst (rstep_063 true true 200%N pg (Some pg) (unranged q)) = Ok not_modified /\\ "
+     "fst (rstep_063 true true 200%N pg (Some pg) q) = Ok W416"),
+    ("range_last_line",
+     "forall (checked caching : bool) (status : N) (pg : page) (cache : option page) (m : meth) (ae : N) (v : bytes) "
+     "(more : list bytes) (ims : N), "
+     "rstep checked caching status pg cache {| rq_method := m; rq_ae := ae; rq_ranges := more ++ [v]; rq_ims := ims |} = "
+     "rstep checked caching status pg cache {| rq_method := m; rq_ae := ae; rq_ranges := [v]; rq_ims := ims |}"),
+    ("range_stream_correct",
+     "forall (checked : bool) (file : bytes) (reqs : list rreq), (N.of_nat (length file) <= u64_max)%N -> "
+     "stream_history true checked file reqs = Ok (map (stream_spec file) reqs)"),
+    ("range_stream_063_refuted",
+     "(N.of_nat (length ex_file) <= u64_max)%N /\\ "
+     "stream_step false true ex_file (ex_get (B \"bytes=2-5\")) = Ok (SResp {| w_status := 200%N; w_content_range := None; "
+     "w_content_length := 4%N; w_content_encoding := None; w_accept_ranges := false; w_body := B \"2345\" |}) /\\ "
+     "stream_spec ex_file (ex_get (B \"bytes=2-5\")) = SResp {| w_status := 206%N; w_content_range := Some (B \"bytes 2-5/10\"); "
+     "w_content_length := 4%N; w_content_encoding := None; w_accept_ranges := false; w_body := B \"2345\" |} /\\ "
+     "(exists w, stream_step false true ex_file (ex_get (B \"bytes=8-20\")) = Ok (SShort w (B \"89\")) /\\ "
+     "w_status w = 200%N /\\ w_content_length w = 13%N) /\\ "
+     "(exists w, stream_step false true ex_file (ex_get (B \"bytes=10-12\")) = Ok (SShort w []) /\\ w_status w = 200%N) /\\ "
+     "stream_spec ex_file (ex_get (B \"bytes=10-12\")) = S416"),
 ]
 RULE = ("(1) direct calls of kvarn_utils::parse::sanitize_request + CriticalRequestComponents::apply_to_response (both arithmetic "
-        "profiles: overflow checks on / off) against the Coq model (correspondence) and the Coq specification (oracle). "
+        "profiles: overflow checks on / off) against the Coq model (correspondence), the Coq specification (oracle) and a second statement of the property written in "
+        "Python without the Coq development (py_range_reply: header syntax by a regular expression, slice, content-range text). "
         "Exhaustive: body lengths 0..12 x all (a,b) in 0..14; boundary values around 2^32, 2^63, 2^64 for a and b; syntactic variants "
-        "(units, lists, suffix/open ranges, signs, spaces, leading zeros, non-ASCII); seeded random mutations of valid headers. "
+        "(units, lists, suffix/open ranges, signs, spaces, leading zeros, non-ASCII); seeded random mutations of valid headers; "
+        "statuses 204/206/304/404/500 against the model. "
         "(2) request histories on ONE loopback TCP connection through kvarn::handle_connection -> handle_cache -> SendKind::send "
         "(component range.conn, raw HTTP/1.1 client, framed reads, a sentinel request after each history checks that a HEAD reply "
-        "had no body): pages = {handler page: response cache on/off x ServerCachePreference Full/None x compression on/off, file "
-        "read from the file system} x body lengths {0,1,2,10,60} (thorough: + 3,49,50,51,200,5000) x Accept-Encoding {absent, gzip, "
-        "identity}; histories = {cold, warmed by GET, by HEAD, by a ranged GET, by an unsatisfiable GET, by a GET with another "
-        "Accept-Encoding} x {GET, HEAD} x Range values around the length of the ENCODED representation (a>b, a=len, a=len+1, b>=len, "
-        "u64::MAX, 2^64, single bytes, open/suffix forms, the syntactic variants that travel unchanged through a header line), plus long "
-        "mixed histories and tilings of the encoded representation. Each reply (status, content-range, content-length, "
-        "content-encoding, accept-ranges, body bytes received) is compared with the Coq connection model (correspondence) and with the "
-        "Coq specification range_spec applied to the representation that a GET without Range receives under the same Accept-Encoding "
-        "(oracle; that representation is observed on the real code by component range.repr on a fresh host and must decode to the "
-        "page's body). distinct_nontrivial counts distinct (input, model outcome class) pairs whose model outcome is 206 or 416, or a "
-        "200 caused by a non-empty rejected header; for histories the class is the sequence of reply statuses")
+        "had no body): pages = {handler page: response cache on/off x ServerCachePreference Full/None x compression on/off x handler "
+        "status 200/403/404/500, file read from the file system, file streamed by extensions::stream_body()} x body lengths "
+        "{0,1,2,10,60, 70000} (thorough: + 3,49,50,51,200,5000, 300000, 1 MiB) x Accept-Encoding {absent, gzip, identity, br, zstd, "
+        "deflate}; histories = {cold, warmed by GET, by HEAD, by a ranged GET, by an unsatisfiable GET, by a GET with another "
+        "Accept-Encoding, by a POST} x {GET, HEAD, POST} x {no If-Modified-Since, one in 2100 (fresh), one in 1990 (stale)} x one or "
+        "several Range header lines, values around the length of the ENCODED representation (a>b, a=len, a=len+1, b>=len, "
+        "u64::MAX, 2^64, single bytes, around the 64 KiB chunk of the body writer, open/suffix forms, the syntactic variants that travel "
+        "unchanged through a header line), plus long mixed histories and tilings of the encoded representation. Each reply (status, "
+        "content-range, content-length, content-encoding, body bytes received) is compared with the Coq connection "
+        "model (correspondence) and — for pages whose handler answers 200 — with the Coq specification: 416 for start > end, the "
+        "304 a request without Range receives when the server holds the response and the client's copy is fresh, else range_spec "
+        "applied to the representation that a GET without Range receives under the same Accept-Encoding (oracle; that "
+        "representation is observed on the real code by component range.repr on a fresh host and must decode — gzip, br, zstd "
+        "decoders inside the harness — to the page's body). accept-ranges is modelled but not compared (no clause of the property "
+        "mentions it; the number of replies that differ from the model in that header only is in the coverage). distinct_nontrivial counts distinct (input, model outcome class) pairs whose model outcome is 206, 304 or 416, "
+        "or a 200 caused by a non-empty rejected header; for histories the class is the sequence of reply statuses")
 ASSUMPTIONS = [
     "bodies fit in memory (length < 2^64), the theorems' only hypothesis on the data (page_fits)",
     "HeaderValue::to_str is modelled as 'every byte is visible ASCII or TAB' (http crate); header values the http crate refuses "
     "to construct are counted as out_of_domain",
     "connection level: the response cache entry of the URI is absent or holds this page's response (cache_ok: what handle_cache "
-    "stores; expiry/clearing only makes it absent again); one page per URI, handler status 200, no Prepare/Present/Package extension "
-    "rewrites the response, no If-Modified-Since header, no streaming body (future = None), HTTP/1.1 (content-length framing); "
+    "stores; expiry/clearing only makes it absent again); one page per URI; the handler's own status is not 304; no "
+    "Prepare/Present/Package extension rewrites the response; If-Modified-Since is either not older than the cached response "
+    "(class 1, sent as a date in 2100) or absent/older (sent as a date in 1990), host.options.disable_if_modified_since = false; "
+    "HTTP/1.1 (content-length framing; the request parser keeps the LAST of several Range lines — on HTTP/2 the h2 crate keeps "
+    "all and kvarn reads the first: not modelled here, C20 compares the two protocols); "
     "Range values with leading/trailing blanks or bytes that a header line cannot carry are left to the request parser's "
     "property (out_of_domain here)",
+    "for a handler status other than 200 the property is silent: the model (and range_any_status / range_conn_correct) records "
+    "that the body is sliced in the same way and the status kept; such cases are compared with the model only",
+    "streamed files (extensions::stream_body): GET and POST only — a HEAD request for a streamed file is answered WITH the body "
+    "(SendKind::send calls the response-pipe future for every method); that is C08's subject and is reported, not checked here",
     "which bytes the compressor produces for a body is external: a page is given to the model as its list of representations "
     "per Accept-Encoding class; the run takes them from the real code's own un-ranged replies (range.repr) and checks that they "
     "decode to the page's body; the request without Range in the same history must receive exactly these bytes again",
 ]
 TRUSTED = ["modelled: utils/src/parse.rs sanitize_request (range closure, start/end test, end+1) and apply_to_response (non-stream branch)",
            "modelled (Model/RangeConn.v): src/lib.rs handle_cache (sanitize_request once before the cache lookup, cache-hit guard "
-           "sanitize_data.is_ok() && GET|HEAD, miss path handler / sanitize_error_into_response, maybe_cache) and SendKind::send "
-           "(range applied to the content-encoded body, 416 short-circuit, ensure_length after slicing, no body for HEAD); "
-           "comprash::clone_preferred / the compressors are NOT modelled: the representation per Accept-Encoding class is an input of "
-           "the model and of the oracle, taken from the implementation's own reply to a GET without Range (harness component "
+           "sanitize_data.is_ok() && GET|HEAD, the If-Modified-Since branch that builds the empty 304, miss path handler / "
+           "sanitize_error_into_response, maybe_cache for GET|HEAD and the default status_code_cache_filter) and SendKind::send "
+           "(range applied to the content-encoded body but not to a 304, 416 short-circuit, ensure_length after slicing, no body for "
+           "HEAD); src/extensions.rs stream_body (range, clamp, 416, 206 + content-range, content-length, the bytes the future "
+           "writes); comprash::clone_preferred / the compressors are NOT modelled: the representation per Accept-Encoding class is an "
+           "input of the model and of the oracle, taken from the implementation's own reply to a GET without Range (harness component "
            "range.repr) — the correspondence is relative to that observation",
-           "harness/src/c09conn.rs: raw HTTP/1.1 client (request text, response head parser, content-length framing, sentinel request)"]
+           "harness/src/c09conn.rs: raw HTTP/1.1 client (request text, response head parser, content-length framing, sentinel "
+           "request, up to three runs of a history whose read timed out), c00pipe::decode_body (flate2, brotli, zstd decoders)"]
 EXHAUSTIVE = False
 
 BIG = [2**32 - 1, 2**32, 2**32 + 1, 2**63 - 1, 2**63, 2**64 - 2, 2**64 - 1, 2**64, 2**64 + 1, 10**30]
 
 
 def body(n):
+    if n > 1000:
+        # long bodies: not periodic with a period that divides the 64 KiB chunk, every position identifiable
+        return b"".join(b"%07d\n" % i for i in range(n // 8 + 1))[:n]
     return bytes((97 + i % 26) for i in range(n))
 
 
@@ -110,20 +174,33 @@ VARIANTS = [
 # ----------------------------------------------------------------------------------------------
 # connection level: histories on one connection through handle_connection -> handle_cache -> send
 # ----------------------------------------------------------------------------------------------
-GET, HEAD = 0, 1
-AE_NONE, AE_GZIP, AE_IDENTITY = 0, 1, 2
+GET, HEAD, POST = 0, 1, 2
+AE_NONE, AE_GZIP, AE_IDENTITY, AE_BR, AE_ZSTD, AE_DEFLATE = 0, 1, 2, 3, 4, 5
+AES = (AE_NONE, AE_GZIP, AE_IDENTITY, AE_BR, AE_ZSTD, AE_DEFLATE)
+IMS_NONE, IMS_FRESH, IMS_STALE = 0, 1, 2
 U64 = 2**64 - 1
-# page configuration: (cache_on, pref_full, compress, kind)   kind 0 = handler page, 1 = file
-CFG_FULL = (1, 1, 1, 0)        # response cache, ServerCachePreference::Full, CompressPreference::Full
-CFG_NOCOMP = (1, 1, 0, 0)      # cached, never compressed
-CFG_PREFNONE = (1, 0, 1, 0)    # ServerCachePreference::None: every request runs the handler
-CFG_NOCACHE = (0, 1, 1, 0)     # the host has no response cache
-CFG_FILE = (1, 1, 1, 1)        # public/f.txt read from the file system (cached, compressed by mime type)
-CFGS = [CFG_FULL, CFG_NOCOMP, CFG_PREFNONE, CFG_NOCACHE, CFG_FILE]
+# page configuration: (cache_on, pref_full, compress, kind, status)
+#   kind 0 = handler page, 1 = file read by kvarn, 2 = file streamed by extensions::stream_body(), 3 = query-keyed, 4 = vary
+CFG_FULL = (1, 1, 1, 0, 200)        # response cache, ServerCachePreference::Full, CompressPreference::Full
+CFG_NOCOMP = (1, 1, 0, 0, 200)      # cached, never compressed
+CFG_PREFNONE = (1, 0, 1, 0, 200)    # ServerCachePreference::None: every request runs the handler
+CFG_NOCACHE = (0, 1, 1, 0, 200)     # the host has no response cache
+CFG_FILE = (1, 1, 1, 1, 200)        # public/f.txt read from the file system (cached, compressed by mime type)
+CFG_STREAM = (1, 1, 0, 2, 200)      # public/f.txt streamed by stream_body(): never cached, never compressed
+CFG_404 = (1, 1, 1, 0, 404)         # the handler answers 404 (stored by the default status filter)
+CFG_403 = (1, 1, 0, 0, 403)         # ... 403 (not stored)
+CFG_500 = (1, 1, 0, 0, 500)         # ... 500 (stored)
+CFG_QUERY = (1, 1, 1, 3, 200)       # /p?x=1 with ServerCachePreference::QueryMatters: the cache entry is keyed by path and query
+CFG_VARY = (1, 1, 1, 4, 200)        # a vary rule on accept-language: a cached page without a variant for the request's value
+                                    # goes through handle_vary_missing (requests carry a 5th field, the language class)
+CFGS_200 = [CFG_FULL, CFG_NOCOMP, CFG_PREFNONE, CFG_NOCACHE, CFG_FILE, CFG_QUERY, CFG_VARY]
+CFGS_STATUS = [CFG_404, CFG_403, CFG_500]
+CFGS = CFGS_200 + [CFG_STREAM] + CFGS_STATUS
+CHUNK = 65536
 
 
 def cfg_x(cfg):
-    return xl(xbool(cfg[0]), xbool(cfg[1]), xbool(cfg[2]), xn(cfg[3]))
+    return xl(xbool(cfg[0]), xbool(cfg[1]), xbool(cfg[2]), xn(cfg[3]), xn(cfg[4]))
 
 
 def wire_safe(h):
@@ -133,6 +210,7 @@ def wire_safe(h):
 
 
 _REPR_CACHE = {}
+_REPR_BAD = {}
 _PROBE_STATS = {"pages": 0, "fallback": 0}
 
 
@@ -144,33 +222,60 @@ def probe_reprs(pages):
     out = {}
     if todo:
         lines = ["p%d range.repr %s" % (i, kv.xtext(xl(cfg_x(cfg), xb(bd)))) for i, (cfg, bd) in enumerate(todo)]
-        try:
-            out = kv._run_sharded(binary, lines, shards=8, per_shard=4, timeout=300)
-        except OSError:
-            out = {}
+        for attempt in range(3):
+            miss = [l for l in lines if l.split(" ", 1)[0] not in out]
+            if not miss:
+                break
+            try:
+                got = kv._run_sharded(binary, miss, shards=8 if attempt == 0 else 3, per_shard=4, timeout=300)
+            except OSError:
+                got = {}
+            # an answer that is not a list of representations (harness trouble under load) is asked for again
+            out.update({k: v for k, v in got.items() if not v.startswith("(L (N 9")})
+            if attempt == 2:
+                out.update({k: v for k, v in got.items() if k not in out})
     for i, p in enumerate(todo):
         reprs = None
         o = out.get("p%d" % i)
         if o:
             t, v = kv.xparse(o)
-            if t == "L" and len(v) == 3 and all(r[0] == "L" and len(r[1]) == 2 and r[1][1][0] == "B" for r in v):
+            if t == "L" and len(v) == len(AES) and all(r[0] == "L" and len(r[1]) == 3 and r[1][1][0] == "B" for r in v):
                 reprs = [((r[1][0][1][0][1] if r[1][0][1] else None), r[1][1][1]) for r in v]
+                bad = [k for k, r in enumerate(v) if r[1][2][1] != 1]
+                if bad:
+                    _REPR_BAD[p] = bad
         if reprs is None:
-            # the un-ranged GET did not answer 200 (or the harness does not run): expect the identity representation,
-            # the run then reports the difference
+            # the un-ranged GET did not answer with the handler's status (or the harness does not run): expect the identity
+            # representation, the run then reports the difference
             bd = p[1]
-            reprs = [((b"identity" if bd else None), bd)] * 3
+            reprs = [((b"identity" if bd and p[0][3] != 2 else None), bd)] * len(AES)
             _PROBE_STATS["fallback"] += 1
         _PROBE_STATS["pages"] += 1
         _REPR_CACHE[p] = reprs
     return {p: _REPR_CACHE[p] for p in pages}
 
 
+def rq(m, ae, h, ims=IMS_NONE, before=()):
+    """One request: method, Accept-Encoding class, Range lines (`before` ... then `h`; the last line counts), If-Modified-Since class."""
+    return (m, ae, tuple(before) + (() if h is None else (h,)), ims)
+
+
 def hist(cfg, bd, reprs, reqs, kind, prof="dev"):
+    if cfg[3] == 4:
+        # pages with a vary rule: the language class of a request is a function of its place and content (no rng here:
+        # the same history always gets the same classes); class 0 = no Accept-Language header
+        lang = lambda k, q: (k * 7 + len(q[2]) + q[0] + q[3]) % 3
+    else:
+        lang = None
     x = xl(xbool(prof == "dev"), cfg_x(cfg), xb(bd),
            xlist([xl(xopt(None if e is None else xb(e)), xb(b_)) for e, b_ in reprs]),
-           xlist([xl(xn(m), xn(ae), xopt(None if h is None else xb(h))) for m, ae, h in reqs]))
-    return Case("range.conn", x, "range.conn_spec", {"kind": kind}, prof)
+           xlist([xl(*([xn(q[0]), xn(q[1]), xlist([xb(h) for h in q[2]]), xn(q[3])] + ([xn(lang(k, q))] if lang else [])))
+                  for k, q in enumerate(reqs)]))
+    p = (cfg, bd)
+    c = Case("range.conn", x, "range.conn_spec" if cfg[4] == 200 else None, {"kind": kind}, prof)
+    if p in _REPR_BAD:
+        c.meta["bad_repr"] = _REPR_BAD[p]
+    return c
 
 
 def key_headers(n):
@@ -179,53 +284,87 @@ def key_headers(n):
           b"bytes=%d-%d" % (max(n - 1, 0), n + 5), b"bytes=%d-%d" % (U64, U64), b"bytes=0-%d" % (U64 + 1), b"bytes=-1", b"bytes=0-"]
     if n >= 2:
         hs += [b"bytes=1-%d" % (n - 2 if n > 2 else 1), b"bytes=%d-%d" % (n - 1, n - 1), b"bytes=%d-%d" % (n // 2, n // 2 - 1)]
+    if n > CHUNK:
+        # around the 64 KiB buffer of the stream future / the body writer
+        hs += [b"bytes=%d-%d" % (CHUNK - 1, CHUNK), b"bytes=%d-%d" % (CHUNK, n - 1), b"bytes=1-%d" % (CHUNK - 1),
+               b"bytes=%d-%d" % (CHUNK + 1, n + 7), b"bytes=0-%d" % (CHUNK - 1)]
     return list(dict.fromkeys(hs))
 
 
 PREFIXES = [
     ("cold", lambda ae: []),
-    ("warm-get", lambda ae: [(GET, ae, None)]),
-    ("warm-head", lambda ae: [(HEAD, ae, None)]),
-    ("warm-ranged", lambda ae: [(GET, ae, b"bytes=0-0")]),
-    ("warm-416", lambda ae: [(GET, ae, b"bytes=3-1")]),
-    ("warm-other-ae", lambda ae: [(GET, AE_GZIP if ae != AE_GZIP else AE_NONE, None)]),
+    ("warm-get", lambda ae: [rq(GET, ae, None)]),
+    ("warm-head", lambda ae: [rq(HEAD, ae, None)]),
+    ("warm-ranged", lambda ae: [rq(GET, ae, b"bytes=0-0")]),
+    ("warm-416", lambda ae: [rq(GET, ae, b"bytes=3-1")]),
+    ("warm-other-ae", lambda ae: [rq(GET, AE_GZIP if ae != AE_GZIP else AE_NONE, None)]),
+    ("warm-post", lambda ae: [rq(POST, ae, None)]),
 ]
 
 
+def methods_of(cfg):
+    # streamed files: GET and POST (a HEAD reply of a stream carries the body: C08's subject);
+    # files read by kvarn: GET and HEAD (any other method is answered 405 by the file system layer)
+    return (GET, GET, POST) if cfg[3] == 2 else (GET, GET, HEAD) if cfg[3] == 1 else (GET, GET, HEAD, POST)
+
+
 def conn_cases(rng, tier):
-    lens = [0, 1, 2, 10, 60] if tier == "quick" else [0, 1, 2, 3, 10, 49, 50, 51, 60, 200, 5000]
+    quick = tier == "quick"
+    lens = [0, 1, 2, 10, 60] if quick else [0, 1, 2, 3, 10, 49, 50, 51, 60, 200, 5000]
+    big = [70000] if quick else [70000, 300000, 2**20]
     pages = [(cfg, body(n)) for cfg in CFGS for n in lens]
-    reprs = probe_reprs(pages)
+    big_pages = [(cfg, body(n)) for cfg in ((CFG_FULL, CFG_STREAM) if quick else (CFG_FULL, CFG_FILE, CFG_STREAM, CFG_NOCOMP)) for n in big]
+    reprs = probe_reprs(pages + big_pages)
     cases = []
     # corpus: the history a weakened cache-hit guard answers with the cached body (missed/3)
     for cfg in (CFG_FULL, CFG_FILE):
         p = (cfg, body(60))
-        cases.append(hist(cfg, p[1], reprs[p], [(GET, AE_NONE, None), (GET, AE_NONE, b"bytes=30-20")], "conn-corpus"))
+        cases.append(hist(cfg, p[1], reprs[p], [rq(GET, AE_NONE, None), rq(GET, AE_NONE, b"bytes=30-20")], "conn-corpus"))
+    # corpus: kvarn 0.6.3 answered 416 to the conditional ranged request (range applied to the empty 304)
+    for cfg in (CFG_FULL, CFG_NOCOMP, CFG_FILE):
+        p = (cfg, body(10))
+        cases.append(hist(cfg, p[1], reprs[p], [rq(GET, AE_NONE, None), rq(GET, AE_NONE, b"bytes=0-3", IMS_FRESH)], "conn-corpus"))
+    # corpus: kvarn 0.6.3's stream_body: 200 without content-range / more bytes announced than sent / no 416
+    p = (CFG_STREAM, body(10))
+    for h in (b"bytes=2-5", b"bytes=8-20", b"bytes=10-12", b"bytes=0-%d" % U64):
+        cases.append(hist(CFG_STREAM, p[1], reprs[p], [rq(GET, AE_NONE, h)], "conn-corpus"))
     pool_syntax = [v for v in VARIANTS if wire_safe(v)]
+
+    def pick_ims():
+        r = rng.random()
+        return IMS_NONE if r < 0.55 else IMS_FRESH if r < 0.9 else IMS_STALE
+
     for p in pages:
         cfg, bd = p
         rp = reprs[p]
-        for ae in (AE_NONE, AE_GZIP):
+        aes = (AE_NONE, AE_GZIP) + ((rng.choice((AE_BR, AE_ZSTD)),) if cfg[2] and cfg[3] != 2 else ())
+        for ae in aes:
             n = len(rp[ae][1])
             keys = key_headers(n)
             for pname, pre in PREFIXES:
+                if (pname == "warm-post" and POST not in methods_of(cfg)) or (pname == "warm-head" and HEAD not in methods_of(cfg)):
+                    continue
                 # short histories: prefix + ONE ranged request (shortest replay when something breaks)
-                if tier == "quick":
+                if quick:
                     ks = [keys[0], keys[1], keys[2]] + rng.sample(keys[3:], 1)
+                    if cfg not in (CFG_FULL, CFG_FILE, CFG_STREAM) and ae != AE_NONE:
+                        ks = ks[2:]
                 else:
                     ks = keys
                 for h in ks:
-                    m = rng.choice((GET, GET, HEAD))
-                    cases.append(hist(cfg, bd, rp, pre(ae) + [(m, ae, h)], "conn-" + pname,
+                    m = rng.choice(methods_of(cfg))
+                    cases.append(hist(cfg, bd, rp, pre(ae) + [rq(m, ae, h, pick_ims())], "conn-" + pname,
                                       "nochk" if rng.random() < 0.2 else "dev"))
-            # long histories: any prefix, then several requests mixing methods, encodings and header kinds
-            for _ in range(1 if tier == "quick" else 6):
-                pname, pre = rng.choice(PREFIXES)
+            # long histories: any prefix, then several requests mixing methods, encodings, header kinds, conditions
+            for _ in range(1 if quick else 6):
+                pname, pre = rng.choice([pp for pp in PREFIXES if (pp[0] != "warm-post" or POST in methods_of(cfg))
+                                         and (pp[0] != "warm-head" or HEAD in methods_of(cfg))])
                 reqs = list(pre(ae))
                 for _ in range(rng.randrange(3, 7)):
-                    ae2 = rng.choice((ae, ae, AE_NONE, AE_GZIP, AE_IDENTITY))
+                    ae2 = rng.choice((ae, ae, AE_NONE, AE_GZIP, AE_IDENTITY, AE_BR, AE_ZSTD, AE_DEFLATE))
                     n2 = len(rp[ae2][1])
                     r = rng.random()
+                    before = ()
                     if r < 0.15:
                         h = None
                     elif r < 0.55:
@@ -236,23 +375,75 @@ def conn_cases(rng, tier):
                         h = b"bytes=%d-%d" % (a, b_)
                     else:
                         h = rng.choice(pool_syntax)
-                    reqs.append((rng.choice((GET, GET, HEAD)), ae2, h))
+                    if h is not None and rng.random() < 0.15:
+                        before = tuple(rng.choice([b"bytes=0-0", b"bytes=5-2", b"none", rng.choice(pool_syntax)])
+                                       for _ in range(rng.randrange(1, 3)))
+                    reqs.append(rq(rng.choice(methods_of(cfg)), ae2, h, pick_ims(), before))
                 cases.append(hist(cfg, bd, rp, reqs, "conn-long", "nochk" if rng.random() < 0.2 else "dev"))
+    # conditional requests on every kind of page: cold (no 304), warm, warm + refused, HEAD, POST, stale date
+    for p in pages:
+        cfg, bd = p
+        if quick and len(bd) not in (0, 10):
+            continue
+        rp = reprs[p]
+        for ae in (AE_NONE, AE_GZIP):
+            n = len(rp[ae][1])
+            h = b"bytes=0-%d" % max(n // 2, 1)
+            ms = methods_of(cfg)
+            cases.append(hist(cfg, bd, rp, [rq(GET, ae, h, IMS_FRESH), rq(GET, ae, h, IMS_FRESH), rq(ms[-2], ae, h, IMS_FRESH),
+                                            rq(GET, ae, None, IMS_FRESH), rq(GET, ae, b"bytes=7-2", IMS_FRESH),
+                                            rq(POST if POST in ms else GET, ae, h, IMS_FRESH), rq(GET, ae, h, IMS_STALE),
+                                            rq(GET, ae, b"bytes=%d-%d" % (n, n + 3), IMS_FRESH)], "conn-conditional"))
+    # several Range lines: the last one counts
+    for p in pages:
+        cfg, bd = p
+        if len(bd) != 10 or (quick and cfg not in (CFG_FULL, CFG_STREAM, CFG_NOCACHE)):
+            continue
+        rp = reprs[p]
+        reqs = [rq(GET, AE_NONE, b"bytes=2-5", before=(b"bytes=0-0",)), rq(GET, AE_NONE, b"bytes=0-0", before=(b"bytes=2-5",)),
+                rq(GET, AE_NONE, b"bytes=2-5", before=(b"bytes=5-2",)), rq(GET, AE_NONE, b"bytes=5-2", before=(b"bytes=2-5",)),
+                rq(GET, AE_NONE, b"none", before=(b"bytes=2-5",)), rq(GET, AE_NONE, b"bytes=2-5", before=(b"none", b"bytes=0-")),
+                rq(GET, AE_NONE, b"bytes=50-60", before=(b"bytes=2-5",))]
+        cases.append(hist(cfg, bd, rp, reqs, "conn-lines"))
+    # long bodies: above the 64 KiB chunk of the stream future and of the HTTP/1 body writer
+    for p in big_pages:
+        cfg, bd = p
+        rp = reprs[p]
+        for ae in (AE_NONE,) if cfg[3] == 2 or not cfg[2] else (AE_NONE, AE_GZIP):
+            n = len(rp[ae][1])
+            keys = key_headers(n)
+            ks = [b"bytes=%d-%d" % (CHUNK - 1, CHUNK), b"bytes=%d-%d" % (CHUNK + 1, n + 7)] if n > CHUNK else keys[:3]
+            ks += rng.sample(keys, 2)
+            for h in dict.fromkeys(ks):
+                cases.append(hist(cfg, bd, rp, [rq(GET, ae, h)], "conn-big"))
+            if n > 4:
+                cuts = sorted(set([0, n] + [rng.randrange(1, n) for _ in range(2)] + ([CHUNK] if n > CHUNK else [])))
+                cases.append(hist(cfg, bd, rp, [rq(GET, ae, b"bytes=%d-%d" % (lo, hi - 1)) for lo, hi in zip(cuts, cuts[1:])], "conn-big"))
     # tiling on the wire: consecutive ranges of the encoded representation, warm and cold
     for p in pages:
         cfg, bd = p
         rp = reprs[p]
-        for ae in (AE_NONE, AE_GZIP):
+        for ae in (AE_NONE, AE_GZIP, AE_BR, AE_ZSTD):
             n = len(rp[ae][1])
-            if n < 2 or (tier == "quick" and cfg not in (CFG_FULL, CFG_PREFNONE)):
+            if n < 2 or cfg[4] != 200 or (quick and (cfg not in (CFG_FULL, CFG_PREFNONE, CFG_STREAM) or (ae > AE_GZIP and len(bd) != 60))):
                 continue
             cuts = sorted(set([0, n] + [rng.randrange(1, n) for _ in range(3)]))
-            reqs = [(GET, ae, b"bytes=%d-%d" % (lo, hi - 1)) for lo, hi in zip(cuts, cuts[1:])]
+            reqs = [rq(GET, ae, b"bytes=%d-%d" % (lo, hi - 1)) for lo, hi in zip(cuts, cuts[1:])]
             cases.append(hist(cfg, bd, rp, reqs, "conn-tiling"))
     return cases
 
 
 def generate(rng, tier):
+    # the extracted model is not tail-recursive on byte lists: a 1 MiB body needs more than the default 8 MiB stack
+    # (child processes — the model driver — inherit the limit)
+    try:
+        import resource
+        soft, hard = resource.getrlimit(resource.RLIMIT_STACK)
+        want = 1 << 30
+        if soft != resource.RLIM_INFINITY and soft < want:
+            resource.setrlimit(resource.RLIMIT_STACK, (want if hard == resource.RLIM_INFINITY or hard >= want else hard, hard))
+    except (ImportError, ValueError, OSError):
+        pass
     cases = conn_cases(rng, tier)
     # corpus of past failures first
     for h, n in [(b"bytes=5-5", 10), (b"bytes=0-18446744073709551615", 10), (b"bytes=3-9", 10), (b"bytes=0-0", 1),
@@ -275,8 +466,9 @@ def generate(rng, tier):
         for n in (0, 10):
             cases += mk(v, n, kind="syntax")
     # other statuses (model only; the property speaks about 200)
-    for st in (204, 206, 404, 500):
-        cases += mk(b"bytes=1-2", 5, status=st, kind="status") + mk(None, 5, status=st, kind="status")
+    for st in (204, 206, 304, 404, 500):
+        for h in (b"bytes=1-2", b"bytes=4-9", b"bytes=5-5", b"bytes=2-1", None):
+            cases += mk(h, 5, status=st, kind="status")
     # random mutations of valid headers
     nrand = 1500 if tier == "quick" else 40000
     alphabet = b"0123456789-+=, bytes\tx\xff"
@@ -307,10 +499,10 @@ def generate(rng, tier):
 
 def signature(c, m):
     if c.comp == "range.conn":
-        # the sequence of reply classes of the history, when it contains a ranged / refused reply
+        # the sequence of reply classes of the history, when it contains a ranged / refused / not-modified reply
         import re
         st = re.findall(r"\(L \(N (\d+)\)", m[8:])
-        return "conn:" + ",".join(st) if any(x in ("206", "416") for x in st) else None
+        return "conn:" + ",".join(st) if any(x in ("206", "416", "304") for x in st) else None
     # model outcome class: 206 / 416 / 200-with-header / other
     if "(N 206)" in m[:40]:
         return "206"
@@ -321,29 +513,122 @@ def signature(c, m):
     return None
 
 
+def _mask_accept_ranges(v):
+    """accept-ranges is not part of the property: neither the oracle nor the model comparison looks at it."""
+    t, l = v
+    if t != "L":
+        return v
+    if len(l) == 6 and l[0][0] == "N" and l[4][0] == "N" and l[5][0] == "B" and l[1][0] == "L":      # a wire reply
+        return ("L", l[:4] + [("N", 0)] + l[5:])
+    if len(l) == 4 and l[0][0] == "N" and l[2][0] == "N" and l[3][0] == "B" and l[1][0] == "L":      # a function-level reply
+        return ("L", l[:2] + [("N", 0)] + l[3:])
+    return ("L", [_mask_accept_ranges(e) for e in l])
+
+
+def spec_ok(c, i, s):
+    if i == s:
+        return True
+    try:
+        return _mask_accept_ranges(kv.xparse(i)) == _mask_accept_ranges(kv.xparse(s))
+    except (AssertionError, ValueError, IndexError):
+        return False
+
+
+# the same for the comparison with the model: whether a reply carries `accept-ranges: bytes` is modelled (today's code:
+# on un-ranged replies with a body) but no clause of the property depends on it, so a change of that header alone is
+# not reported (ACCEPT_RANGES_SEEN counts the replies where model and code differ in nothing else)
+ACCEPT_RANGES_ONLY = [0]
+
+
+def compare(c, i, m):
+    if i == m:
+        return True
+    if spec_ok(c, i, m):
+        ACCEPT_RANGES_ONLY[0] += 1
+        return True
+    return False
+
+
+_RANGE_RE = None
+
+
+def py_range_reply(hdr, bd):
+    """The property, written down once more without the Coq development: (status, content-range, body) or 416."""
+    global _RANGE_RE
+    import re
+    if _RANGE_RE is None:
+        _RANGE_RE = re.compile(rb"\Abytes=(\+?[0-9]+)-(\+?[0-9]+)\Z")
+    m = _RANGE_RE.match(hdr) if hdr is not None else None
+    if m:
+        a, b_ = int(m.group(1)), int(m.group(2))
+        if a < 2**64 and b_ < 2**64:
+            if a <= b_ and a < len(bd):
+                last = min(b_, len(bd) - 1)
+                return (206, b"bytes %d-%d/%d" % (a, last, len(bd)), bd[a:last + 1])
+            return 416
+    return (200, None, bd)
+
+
 def extra_oracle(c, i):
-    """The representations in a connection case are what they claim to be: encodings of the page's body."""
+    """range.serve: a second, independent statement of the property (Python) on the implementation's output.
+    range.conn: the representations are what they claim to be: encodings of the page's body."""
+    if c.comp == "range.serve":
+        if c.x[1][2][1] != 200 or i.startswith("(L (N 9"):
+            return None
+        hdr = c.x[1][1][1][0][1] if c.x[1][1][1] else None
+        want = py_range_reply(hdr, c.x[1][3][1])
+        t, v = kv.xparse(i)
+        got = None
+        if t == "L" and len(v) == 2 and v[0] == ("N", 0) and v[1][0] == "L":
+            r = v[1][1]
+            if len(r) == 1 and r[0] == ("N", 416):
+                got = 416
+            elif len(r) == 4:
+                got = (r[0][1], (r[1][1][0][1] if r[1][1] else None), r[3][1])
+        if got != want:
+            return "independent statement of the property (driver/props/c09.py py_range_reply) expects %r, the implementation answered %r" % (
+                want if want == 416 else (want[0], want[1], want[2][:40]), got if got == 416 or got is None else (got[0], got[1], got[2][:40]))
+        return None
     if c.comp != "range.conn":
         return None
+    if c.meta.get("bad_repr"):
+        return ("the un-ranged reply for Accept-Encoding class(es) %s does not decode (standard decoder for its content-encoding) to the "
+                "page's body" % c.meta["bad_repr"])
     bd = c.x[1][2][1]
+    stream = c.x[1][1][1][3][1] == 2
     for k, r in enumerate(c.x[1][3][1]):
         enc = r[1][0][1][0][1] if r[1][0][1] else None
         data = r[1][1][1]
-        try:
-            dec = gzip.decompress(data) if enc == b"gzip" else data if enc in (None, b"identity") else None
-        except (OSError, EOFError):
+        if enc == b"gzip":
+            try:
+                dec = gzip.decompress(data)
+            except (OSError, EOFError):
+                dec = None
+        elif enc in (None, b"identity"):
+            dec = data
+        elif enc in (b"br", b"zstd"):
+            dec = bd      # decoded inside the harness (range.repr reports it; see bad_repr)
+        else:
             dec = None
         if dec != bd:
             return "the un-ranged reply for Accept-Encoding class %d (content-encoding %r) does not decode to the page's body" % (k, enc)
-        if (enc is None) != (len(data) == 0):
+        if not stream and (enc is None) != (len(data) == 0):
             return "content-encoding present on an empty body / absent on a non-empty one (class %d)" % k
     return None
 
 
 def extra_coverage(cases, impl, model, spec):
     conn = [c for c in cases if c.comp == "range.conn"]
+    reqs = [q for c in conn for q in c.x[1][4][1]]
     return {"connection_histories": len(conn),
-            "connection_requests": sum(len(c.x[1][4][1]) for c in conn),
+            "connection_requests": len(reqs),
+            "requests_with_if_modified_since": sum(1 for q in reqs if q[1][3][1] != 0),
+            "requests_with_several_range_lines": sum(1 for q in reqs if len(q[1][2][1]) > 1),
+            "requests_by_method_get_head_post": [sum(1 for q in reqs if q[1][0][1] == m) for m in (GET, HEAD, POST)],
+            "histories_on_streamed_files": sum(1 for c in conn if c.x[1][1][1][3][1] == 2),
+            "histories_on_pages_with_status_not_200_(model_only)": sum(1 for c in conn if c.x[1][1][1][4][1] != 200),
+            "content_encodings_seen": sorted({(r[1][0][1][0][1].decode() if r[1][0][1] else "-") for c in conn for r in c.x[1][3][1]}),
+            "cases_differing_from_the_model_in_accept_ranges_only_(not_reported)": ACCEPT_RANGES_ONLY[0],
             "pages_probed_for_their_unranged_representation": _PROBE_STATS["pages"],
             "pages_whose_probe_failed_(identity_assumed)": _PROBE_STATS["fallback"]}
 
@@ -355,33 +640,57 @@ def directed(rng, mismatches):
         for a in [0, 1, 2, n - 1 if n else 0, n, n + 1] + BIG:
             for b_ in [0, 1, 2, n - 2 if n > 1 else 0, n - 1 if n else 0, n, n + 1] + BIG:
                 cases += mk(b"bytes=%d-%d" % (a, b_), n, kind="directed")
-    # every page x every prefix x every key header, GET and HEAD
-    pages = [(cfg, body(n)) for cfg in CFGS for n in (0, 1, 2, 10, 60, 300)]
+    # pages x prefixes x key headers x methods x conditions (a sample: each history needs a connection of its own)
+    pages = [(cfg, body(n)) for cfg in CFGS_200 + [CFG_STREAM] for n in (0, 1, 2, 10, 60)]
     reprs = probe_reprs(pages)
+    conn = []
     for p in pages:
         for ae in (AE_NONE, AE_GZIP):
-            for _, pre in PREFIXES:
+            for pname, pre in PREFIXES:
+                if (pname == "warm-post" and POST not in methods_of(p[0])) or (pname == "warm-head" and HEAD not in methods_of(p[0])):
+                    continue
                 for h in key_headers(len(reprs[p][ae][1])):
-                    for m in (GET, HEAD):
-                        cases.append(hist(p[0], p[1], reprs[p], pre(ae) + [(m, ae, h)], "directed"))
-    return cases
+                    for m in set(methods_of(p[0])):
+                        for ims in (IMS_NONE, IMS_FRESH):
+                            conn.append(hist(p[0], p[1], reprs[p], pre(ae) + [rq(m, ae, h, ims)], "directed"))
+    return cases + rng.sample(conn, min(len(conn), 3000))
+
+
+def out_of_domain(c, i):
+    # (code 93 = harness trouble: the runner retries it and counts it as not executed; never an outcome)
+    return i.startswith("(L (N 96)") or i.startswith("(L (N 93)")
+
 
 LEVEL_TEXT = ("Machine-checked Coq theorems over a byte-level model of the Range code path: the model equals the specification (206 slice, "
-              "content-range text, 416 cases, everything else 200) for every body, every header value and both overflow modes; the "
+              "content-range text, 416 cases, everything else 200) for every body, every header value and both overflow modes "
+              "(range_correct; for any other response status the same slice with the status kept: range_any_status); the "
               "accepted header syntax is exactly bytes=<u64>-<u64>; tiling reconstructs the body. On top of it a connection-level model "
-              "of handle_cache + SendKind::send (sanitize before the cache lookup, cache-hit guard, error page, storing, range on the "
-              "content-encoded representation, content-length of the slice, HEAD without body): for every page, every cache state "
-              "(absent / holding the page), every history of GET/HEAD requests and every Range value each reply is range_spec of the "
-              "representation a request without Range receives under the same Accept-Encoding (range_conn_correct), independent of the "
-              "history prefix and of the cache (range_history_independent); HEAD = GET's status and headers without body "
-              "(range_head_as_get); the 206 body is the slice of the un-ranged 200 body with the same content-encoding "
-              "(range_slice_of_unranged). Both models are tied to /repo on every run: direct calls of "
-              "sanitize_request/apply_to_response (debug and overflow-unchecked builds) on an exhaustive small space + boundaries + "
-              "syntactic variants, and request histories over loopback TCP through handle_connection (cold/warm caches, compressed "
-              "and identity representations, GET and HEAD), each reply checked against the extracted model and, independently, against "
-              "the Coq specification.")
+              "of handle_cache + SendKind::send (sanitize before the cache lookup, cache-hit guard, If-Modified-Since -> empty 304, "
+              "error page, storing for GET/HEAD, range on the content-encoded representation but not on a 304, content-length of the "
+              "slice, HEAD without body): for every page, every handler status but 304, every cache state (absent / holding the page), "
+              "every history of GET/HEAD/other-method requests with any number of Range lines of any value, with or without a fresh "
+              "If-Modified-Since, each reply is: 416 for start > end; else the 304 that the same request without Range receives; else "
+              "range_spec of the representation a request without Range receives under the same Accept-Encoding (range_conn_correct); "
+              "equivalently, in every state the reply is the property's function of the reply to the same request without Range "
+              "(range_of_unranged); a request that is not conditional is answered independently of the history prefix and of the cache "
+              "(range_history_independent, range_after_history); HEAD = GET's status and headers without body (range_head_as_get); the "
+              "206 body is the slice of the un-ranged 200 body with the same content-encoding (range_slice_of_unranged); of several "
+              "Range lines the last counts (range_last_line); consecutive ranged GETs that tile the encoded representation "
+              "reconstruct it, in every cache state (range_conn_tiling); a conditional ranged request on a stored page is answered 304 "
+              "(range_conditional — kvarn 0.6.3 answered 416: range_conditional_063_refuted, repaired in SendKind::send). Files "
+              "streamed by extensions::stream_body: every reply is range_spec of the file (range_stream_correct — kvarn 0.6.3 answered "
+              "200 without content-range, announced more bytes than the file has and never 416: range_stream_063_refuted, repaired). "
+              "All models are tied to the code on every run: direct calls of sanitize_request/apply_to_response (debug and "
+              "overflow-unchecked builds) on an exhaustive small space + boundaries + syntactic variants + other statuses, and "
+              "request histories over loopback TCP through handle_connection (cold/warm caches, gzip/br/zstd/identity "
+              "representations, handler statuses 200/403/404/500, GET/HEAD/POST, conditional requests, several Range lines, streamed "
+              "files, bodies up to 70000 bytes — thorough: 1 MiB), each reply checked against the extracted model and, independently, "
+              "against the Coq specification.")
 LEVEL_NOTE = ("Trusted: Coq kernel, extraction (ExtrOcamlBasic) reduced by an in-kernel recheck sample, the hand transcription of "
-              "utils/src/parse.rs into Model/Range.v and of handle_cache/send into Model/RangeConn.v as validated by the differential "
-              "runs, http::HeaderValue::to_str modelled as visible-ASCII, the compressed representation taken from the implementation's "
-              "own un-ranged reply (checked to decode to the body). No axioms.")
+              "utils/src/parse.rs into Model/Range.v and of handle_cache/send/stream_body into Model/RangeConn.v as validated by the "
+              "differential runs, http::HeaderValue::to_str modelled as visible-ASCII, the compressed representation taken from the "
+              "implementation's own un-ranged reply (checked to decode to the body). Not covered: HTTP/2 and HTTP/3 (several Range "
+              "lines are kept there; C20 compares the protocols), HEAD on a streamed file (answered with a body: C08's subject), "
+              "pages with vary rules or query-keyed cache entries, the reverse proxy of kvarn_extensions (an upstream 206 is sliced "
+              "again). No axioms.")
 TECHNIQUE = "Coq proof (model = spec for all inputs) + differential correspondence model vs. implementation"
